@@ -488,14 +488,49 @@ def _r_ff_styletext(name, value):
     return _single(r.style)[0]
 
 
+def _r_ff_propobj(name, value):
+    r = cssutils.css.CSSFontFaceRule()
+    r.style.setProperty(cssutils.css.Property(name, value))
+    return _get(r.style, name)
+
+
+def _first_prop(sheet):
+    if not sheet.cssRules.length:
+        return None
+    props = sheet.cssRules[0].style.getProperties(all=True)
+    return props[0] if len(props) == 1 else None
+
+
+def _r_ff_moved_in(name, value):
+    """a property object that was parsed in a style rule is put into an @font-face block: judged as a member of that block"""
+    p = _first_prop(cssutils.parseString('a{%s:%s}' % (name, value)))
+    if p is None:
+        return 'dropped'
+    r = cssutils.css.CSSFontFaceRule()
+    r.style.setProperty(p)
+    return _get(r.style, name)
+
+
+def _r_moved_out(name, value):
+    """... and the other way round"""
+    p = _first_prop(cssutils.parseString('@font-face{%s:%s}' % (name, value)))
+    if p is None:
+        return 'dropped'
+    d = cssutils.css.CSSStyleRule(selectorText='a').style
+    d.setProperty(p)
+    return _get(d, name)
+
+
 ORD_ROUTES = [
     ('setProperty', _r_setprop), ('setitem', _r_setitem), ('replace', _r_replace), ('propobj', _r_propobj), ('cssText', _r_csstext),
+    ('moved-out-of-font-face', _r_moved_out),
     ('decl-off', _r_decl_off), ('sheet-off', _r_sheet_off), ('sheet-switched', _r_sheet_switched),
     ('parseStyle-on', lambda n, v: _r_parsestyle(n, v, True)), ('parseStyle-off', lambda n, v: _r_parsestyle(n, v, False)),
 ]  # fmt: skip
-FF_ROUTES = [('ff-setProperty', _r_ff_setprop), ('ff-style-text', _r_ff_styletext)]
+FF_ROUTES = [('ff-setProperty', _r_ff_setprop), ('ff-style-text', _r_ff_styletext), ('ff-setProperty(Property)', _r_ff_propobj),
+             ('ff-moved-in-from-style-rule', _r_ff_moved_in)]
 # quick tier, pairs that are neither valid nor the representative of their value class
-LIGHT_ROUTES = {'setProperty', 'cssText', 'sheet-off', 'parseStyle-off', 'ff-setProperty'}
+LIGHT_ROUTES = {'setProperty', 'cssText', 'sheet-off', 'parseStyle-off', 'ff-setProperty', 'ff-setProperty(Property)', 'moved-out-of-font-face'}
 
 
 def route(fn, *a):
